@@ -182,6 +182,10 @@ class Interp(object):
             for p in v.parts:
                 if isinstance(p, str) and p:
                     return True
+                if isinstance(p, Opaque) and p.sort == 'nonempty_str':
+                    return True
+            if all(is_z3(p) for p in v.parts):
+                return ctx.branch(z3.Length(self.to_z3(v)) > 0)
             raise Undecided('truth of symbolic string')
         if isinstance(v, SymConst):
             raise Undecided('truth of symbolic constant')
@@ -1515,4 +1519,7 @@ class Policy(object):
         return PROCEED
 
     def str_equal(self, interp, a, b):
+        return PROCEED
+
+    def equal_opaque(self, interp, a, b):
         return PROCEED
